@@ -215,7 +215,7 @@ impl Property for C03 {
     const ID: &'static str = "C03";
     fn rule(&self) -> String {
         "cases: groups of 9 recipes for the same model element (base, +T2, P+S-S, affine round trip, -(-P), (r-1)*(-P), 2*((r+1)/2*P), re-decode, \
-         T2+(P+S-S)); every byte-producing path (16 ark, 7 min, incl. Debug/Display hex and arkworks serialisation) must give the model's \
+         T2+(P+S-S)); every byte-producing path (24 ark, 7 min, incl. Debug/Display hex, arkworks serialisation into sinks that accept 1..31 bytes per write, and two values into one sink) must give the model's \
          encodeSpec bytes; plus independent recipe pairs for injectivity. Non-trivial: group with a member having Z != 1 and a member in the \
          non-canonical representative, or a pair of different elements; distinct by digest"
             .into()
